@@ -101,3 +101,19 @@ M("c11-cap17", "C11", "decoder/bds/bds17.py", '        "5F",\n        "60",', ' 
 M("c11-temp45", "C11", "decoder/bds/bds45.py", "    if sign:\n        value = value - 512\n\n    temp = value * 0.25  # celsius", "    if sign:\n        value = value - 512\n\n    temp = value * 0.25 if d[15] == '1' else None  # celsius")
 M("c11-vr53-regress", "C11", "decoder/bds/bds53.py", "    value = value - 256 if sign else value", "    value = value - 256 if sign and value != 255 else value")
 M("c11-hdg60", "C11", "decoder/bds/bds60.py", "    hdg = value * 90 / 512  # degree\n\n    # convert from [-180, 180] to [0, 360]\n    if hdg < 0:\n        hdg = 360 + hdg\n\n    return hdg\n\n\ndef ias60", "    hdg = value * 90 / 512  # degree\n\n    # convert from [-180, 180] to [0, 360]\n    if hdg <= 0:\n        hdg = 360 + hdg\n\n    return hdg\n\n\ndef ias60")
+
+# ---- C13
+M("c13-alt32", "C13", "decoder/bds/bds62.py", "    alt = (alt - 1) * 32\n", "    alt = alt * 32\n")
+M("c13-baro", "C13", "decoder/bds/bds62.py", "    baro = common.bin2int(mb[20:29])", "    baro = common.bin2int(mb[21:30])")
+M("c13-tcas", "C13", "decoder/bds/bds62.py", "        tcas = True if int(mb[52]) == 1 else False", "        tcas = True if int(mb[51]) == 1 else False")
+M("c13-nic16", "C13", "decoder/uncertainty.py", "    16: {1: 3, 0: 2},", "    16: {1: 2, 0: 3},")
+M("c13-nacp31", "C13", "decoder/adsb.py", "        NACp = common.bin2int(msgbin[76:80])", "        NACp = common.bin2int(msgbin[75:79])")
+M("c13-D8-regress", "C13", "decoder/bds/bds62.py", "hdg = (hdg_sign * 256 + common.bin2int(mb[31:39])) * (180 / 256)", "hdg = (hdg_sign + 1) * common.bin2int(mb[31:39]) * (180 / 256)")
+M("c13-D9-regress", "C13", "decoder/bds/bds61.py", "    if subtype == 1 and emergency_state != 0:", "    if subtype == 1 and emergency_state in (1, 2, 3, 4):")
+M("c13-D10-regress", "C13", "decoder/bds/bds62.py", "    horizontal_mode = common.bin2int(mb[37:39])", "    horizontal_mode = common.bin2int(mb[36:38])")
+M("c13-mono", "C13", "decoder/uncertainty.py", '    6: {"EPU": 556, "VEPU": NA},', '    6: {"EPU": 956, "VEPU": NA},')
+M("c13-silsup", "C13", "decoder/adsb.py", "            SIL_SUP = common.bin2int(msgbin[86])", "            SIL_SUP = common.bin2int(msgbin[85])")
+M("c13-version", "C13", "decoder/adsb.py", "    version = common.bin2int(msgbin[72:75])", "    version = common.bin2int(msgbin[72:75]) & 3")
+M("c13-talt", "C13", "decoder/bds/bds62.py", "    alt = -1000 + common.bin2int(mb[15:25]) * 100", "    alt = -1000 + common.bin2int(mb[15:25]) * 100 if mb[15:25] != '0000000001' else 0")
+M("c13-label", "C13", "decoder/bds/bds62.py", '        alt_source = "Holding mode"', '        alt_source = "MCP/FCU"')
+M("c13-nicc", "C13", "decoder/adsb.py", "    nic_c = int(msgbin[51])", "    nic_c = int(msgbin[52])")
